@@ -30,15 +30,18 @@ C = "http://c.test"
 
 
 class TScenario:
-    def __init__(self, sid, pool_kwargs, calls, warm=()):
+    def __init__(self, sid, pool_kwargs, calls, warm=(), world=None, enc=None, coarse_only=False):
         self.id = sid
         self.pool_kwargs = pool_kwargs
         self.calls = calls
         self.warm = list(warm)  # these calls run to completion, one after the other, before the rest starts
         self.enc = {"nokeep": [x["name"] for x in calls if no_keepalive(x["url"])]}
+        self.enc.update(enc or {})
+        self.world = world or world_h1
+        self.coarse_only = coarse_only  # judged by the ThreadCoarse monitor at every grain
 
     def make(self, choose, preempt=None):
-        run = ThreadRun(self.pool_kwargs, [Call(**x) for x in self.calls], world=world_h1(), choose=choose, preempt_lines=preempt is not None)
+        run = ThreadRun(self.pool_kwargs, [Call(**x) for x in self.calls], world=self.world(), choose=choose, preempt_lines=preempt is not None)
         run.sched.preempt = preempt
         run.scenario_id = self.id
         return run
@@ -63,7 +66,18 @@ SCEN = {
     ]
 }
 
-QUICK = ["th-max1-AB", "th-max1-AAB", "th-max1-wAAB", "th-max2-ABA-keep1", "th-max1-close-AA", "th-max2-wAABC"]
+# scenarios on which EVERY single line-level pre-emption is enumerated (the thread that reaches source line
+# number k of httpcore/_sync/*.py is overtaken there by the other one, which then runs until it blocks)
+SCEN["th-max1-wAAA"] = TScenario("th-max1-wAAA", dict(max_connections=1), [c("r1", A + "/1"), c("r2", A + "/2"), c("r3", A + "/3")], warm=["r1"])
+LINE_SYSTEMATIC = ["th-max1-wAAA"]
+# threads MULTIPLEXED on one warm HTTP/2 connection (the shared reader under the read lock, the write lock,
+# the stream semaphore); judged by the ThreadCoarse monitor: own response, nothing fails, nobody hangs
+from .pool_scenarios import H2 as _H2, world_h2 as _world_h2
+
+SCEN["th-h2-wAAA"] = TScenario("th-h2-wAAA", dict(max_connections=1, **_H2), [c("r1", A + "/1"), c("r2", A + "/2"), c("r3", A + "/3")], warm=["r1"], world=_world_h2, coarse_only=True)
+SCEN["th-h2-wAAAA"] = TScenario("th-h2-wAAAA", dict(max_connections=1, **_H2), [c("r1", A + "/1"), c("r2", A + "/2"), c("r3", A + "/3"), c("r4", A + "/4")], warm=["r1"], world=_world_h2, coarse_only=True)
+
+QUICK = ["th-max1-AB", "th-max1-AAB", "th-max1-wAAB", "th-max2-ABA-keep1", "th-max1-close-AA", "th-max2-wAABC", "th-max1-wAAA", "th-h2-wAAA"]
 THOROUGH = list(SCEN)
 
 
@@ -174,7 +188,7 @@ class ThreadRunner(PoolRunner):
         run.decisions = [(n,) for n in run.sched.choices]
         if run.internal_errors:
             self.internal.append((scen.id, label, run.internal_errors))
-        if preempt is None:
+        if preempt is None and not scen.coarse_only:
             self.add(scen, label, run)
         else:
             self.add_coarse(scen, label, run)
@@ -257,11 +271,11 @@ CHECK_DEADLOCK FALSE
     def judge_coarse(self):
         if not self.coarse:
             return
-        res, stats = tlc.validate_traces("MCThreadCoarse", self.COARSE_CFG, [it["trace"] for it in self.coarse], nd=2)
+        res, stats = tlc.validate_traces("MCThreadCoarse", self.COARSE_CFG, [it["trace"] for it in self.coarse], nd=3)
         accepted = []
         nrej = 0
         for it, row in zip(self.coarse, res):
-            (v0, l0), (v1, l1) = row
+            (v0, l0), (v1, l1), (v2, l2) = row
             if v0 == "ACCEPT":
                 accepted.append(it)
                 continue
@@ -276,6 +290,8 @@ CHECK_DEADLOCK FALSE
             replay = {"scenario": it["scen"].spec(), "meta": it["meta"], "verdict": [v0, l0], "with_ActivateEvicted": [v1, l1], "trace": it["trace"]}
             if v1 == "ACCEPT":
                 self.chk.classify({"module": "Pool", "deviation": ["ActivateEvicted"], "stimulus": it["meta"]["stimuli"]}, what, replay)
+            elif v2 == "ACCEPT":
+                self.chk.classify({"module": "ThreadCoarse", "deviation": ["MuxStreamIdRace"], "stimulus": it["meta"]["stimuli"]}, what + "; with deviation MuxStreamIdRace: ACCEPT", replay)
             else:
                 self.chk.classify({"module": "ThreadCoarse", "deviation": ["<none>"], "stimulus": it["meta"]["stimuli"], "clause": [str(at.get("e"))]}, what, replay)
         # canaries: the monitor binds
@@ -301,11 +317,11 @@ CHECK_DEADLOCK FALSE
         t = copy.deepcopy(base)
         t["ev"][-1]["open"] = t["ev"][-1]["open"] + [11]
         bad.append(("leaked-stream", t))
-        cres, _ = tlc.validate_traces("MCThreadCoarse", self.COARSE_CFG, [x for _, x in bad], nd=2, shards=1)
+        cres, _ = tlc.validate_traces("MCThreadCoarse", self.COARSE_CFG, [x for _, x in bad], nd=3, shards=1)
         can = {}
         for (name, _), row in zip(bad, cres):
             can[name] = row[1][0]
-            if row[0][0] == "ACCEPT" or row[1][0] == "ACCEPT":
+            if any(r_[0] == "ACCEPT" for r_ in row):
                 raise tlc.MachineryError(f"coarse canary '{name}' was ACCEPTED: ThreadCoarse does not bind")
         cov = self.chk.coverage
         cov["line_grain"] = {
@@ -356,11 +372,43 @@ CHECK_DEADLOCK FALSE
                 rng = random.Random(s)
                 self.one(scen, ("random", s), lambda sc, r, rng=rng: rng.choice(r))
             # line-level pre-emption inside httpcore/_sync/*.py
+            if name in LINE_SYSTEMATIC:
+                pre, ch, st = line_preempt_at(-1)
+                probe = self.one(scen, ("line-count",), ch, preempt=pre)
+                total = st["n"]
+                for k in range(1, total + 1):
+                    pre, ch, _ = line_preempt_at(k)
+                    self.one(scen, ("line-at", k), ch, preempt=pre)
+                self.chk.coverage.setdefault("line_systematic", {})[name] = {"traced_lines": total, "executions": total}
             for n in range(30 if quick else 500):
                 s = self.rng.randrange(1 << 30)
                 rng = random.Random(s)
                 p = rng.choice([0.02, 0.05, 0.15])
                 self.one(scen, ("lines", p, s), lambda sc, r, rng=rng: rng.choice(r), preempt=lambda sc, rng=rng, p=p: rng.random() < p)
+
+
+def line_preempt_at(k):
+    """(preempt, choose): the thread that executes the k-th traced source line is pre-empted right there, and
+    another runnable thread is chosen once; everything else is the sticky policy."""
+    state = {"n": 0, "fire": False}
+
+    def pre(sc):
+        state["n"] += 1
+        if state["n"] == k:
+            state["fire"] = True
+            return True
+        return False
+
+    def choose(s, runnable):
+        if state["fire"]:
+            state["fire"] = False
+            last = s.choices[-1] if s.choices else None
+            others = [n for n in runnable if n != last]
+            if others:
+                return others[0]
+        return sticky(s, runnable)
+
+    return pre, choose, state
 
 
 def run(prop, tier):
